@@ -8,6 +8,10 @@ pub fn seeds(seed: u64) -> Vec<([u8; 32], bool)> {
     for r in rtref::crypto::RFC8032.iter() {
         v.push((rtref::crypto::unhex(r.seed).try_into().unwrap(), false));
     }
+    // seeds that are readable text (a pass-phrase, hex digits, an unreplaced placeholder)
+    for t in [&b"correct horse battery staple!!!!"[..], &b"0123456789abcdef0123456789abcdef"[..], &b"seed seed seed seed seed seed see"[..32]] {
+        v.push((t.try_into().unwrap(), false));
+    }
     for bit in 0..256 {
         let mut s = [0u8; 32];
         s[bit / 8] = 1 << (bit % 8);
@@ -23,14 +27,15 @@ pub fn seeds(seed: u64) -> Vec<([u8; 32], bool)> {
     v
 }
 
-/// A spread-out subset of n seeds, always including the first 6 (zero, ff, RFC vectors).
+/// A spread-out subset of n seeds, always including the first 9 (zero, ff, RFC vectors, text seeds).
 pub fn seeds_subset(seed: u64, n: usize) -> Vec<([u8; 32], bool)> {
+    const FIXED: usize = 9;
     let all = seeds(seed);
     if n >= all.len() {
         return all;
     }
-    let mut out: Vec<([u8; 32], bool)> = all[..6.min(n)].to_vec();
-    let rest = &all[6..];
+    let mut out: Vec<([u8; 32], bool)> = all[..FIXED.min(n)].to_vec();
+    let rest = &all[FIXED..];
     let want = n.saturating_sub(out.len());
     for k in 0..want {
         out.push(rest[k * rest.len() / want.max(1)]);
